@@ -3,7 +3,7 @@
     (a call outside the closure is refused) is decided by the correspondence harness: the model
     here fixes which calls are outside. *)
 From Coq Require Import List Arith Bool.
-From Memento Require Import Version.Rules Version.RulesProofs.
+From Memento Require Import Version.Rules Version.RulesProofs Gen.SourceFacts Gen.FactsOK.
 Import ListNotations.
 
 (** the collected rule set is exactly the set of rules reachable from the function, for every
@@ -32,6 +32,10 @@ Print Assumptions C14_direct_exact.
 Theorem C14_collect_nodup : forall p f fuel, NoDup (collect p fuel f).
 Proof. exact collect_nodup. Qed.
 Print Assumptions C14_collect_nodup.
+
+(** the current source validates calls made through modifier clones against the function cloned *)
+Theorem C14_current_source_validates_clones : clone_validation = Some true.
+Proof. exact clone_validation_ok. Qed.
 
 (** a cyclic program: m0 -> h1 -> m2 -> m0, m2 -> out-of-scope helper 3 -> m4 (not followed) *)
 Example C14_witness :
